@@ -1914,6 +1914,12 @@ fn run_unit(sp: &Space, rc: &RunCtx, u: &Unit, shm: &Shm, res: &ResArea, cerr: &
 		}
 		*classes.entry(("DIED", "")).or_insert(0) += 1;
 		start = d + 1;
+		// a decoder that hangs or dies on a whole family of inputs: every such case costs its watchdog; the verdict is
+		// in the violations already, so the rest of this unit is left out (reported as capped)
+		if deaths >= 12 && u.class != Class::Monitors {
+			r.capped = Some(format!("{}: a unit was stopped after {} deaths / hangs of its case runner", s.name, deaths));
+			break;
+		}
 	}
 	for ((a, b), n) in classes {
 		let name = if b.is_empty() { format!("{}|{}", s.name, a) } else { format!("{}|{}|{}", s.name, a, b) };
